@@ -313,9 +313,12 @@ impl<'a> ArithmeticEvaluator<'a> {
 
                     self.interm.push(ArithmeticTerm::Reg(r));
                 }
-                ArithTermRef::Op(lvl, cell, name, arity) => {
+                ArithTermRef::Op(_lvl, cell, name, arity) => {
+                    // the value of a compound expression goes to a fresh temporary, never to the
+                    // argument register of the goal: when the goal is an inlined comparison that
+                    // register can still hold a live variable of the clause
                     self.marker
-                        .mark_non_var::<QueryInstruction>(lvl, term_loc, cell, &mut code);
+                        .mark_non_var::<QueryInstruction>(Level::Deep, term_loc, cell, &mut code);
 
                     if let RegType::Temp(t) = cell.get() {
                         code.push_back(self.instr_from_clause(name, arity, t)?);
